@@ -205,12 +205,17 @@ func (p *Program) collectContracts(verifDir string) (*ContractSet, error) {
 			return nil, err
 		}
 	}
-	specs, _ := filepath.Glob(filepath.Join(verifDir, "spec", "*.smt2"))
-	sort.Strings(specs)
-	for _, f := range specs {
-		if err := p.spec.load(f); err != nil {
+	for _, f := range cs.Spec {
+		if err := p.spec.load(filepath.Join(verifDir, "spec", f)); err != nil {
 			return nil, err
 		}
 	}
 	return cs, nil
+}
+
+
+// sizeof: size in bytes of a value of type t on a 64-bit target.
+func (p *Program) sizeof(t types.Type) int64 {
+	sz := types.SizesFor("gc", "amd64")
+	return sz.Sizeof(t)
 }
